@@ -21,6 +21,7 @@ const (
 	VsBeforeBestmove = 4
 	VsAfterBestmove  = 5 // search thread is about to exit
 	VsInnerMoveDone  = 6 // inside alphaBeta after a move: a = iteration depth*1000 + index of the root move being searched, b = depth of the node
+	VsQuiescencePoll = 7 // inside quiescence after a capture was searched, right before the stop channel is polled: a = depth of the node
 )
 
 var VerifSyncHook func(point, a, b int)
@@ -50,7 +51,18 @@ func VerifResetSession() {
 		killerMoves[i] = [2]Move{}
 	}
 }
-func VerifSearchRunning() bool             { return search != nil && search.running.Load() }
+func VerifSearchRunning() bool { return search != nil && search.running.Load() }
+
+// Number of stop requests waiting in the channel (0 or 1).
+func VerifStopPending() int {
+	if search == nil {
+		return 0
+	}
+	return len(search.stop)
+}
+
+// The search thread's private interruption flag; meaningful only while that thread is parked at a sync point.
+func VerifInterrupted() bool               { return search != nil && search.interrupted }
 func VerifLogInterval() int                { return currmoveLogInterval }
 func (gen *Generator) VerifTop() *Position { return gen.getTopPos() }
 func (gen *Generator) VerifPlyIdx() int    { return int(gen.plyIdx) }
